@@ -110,7 +110,7 @@ def _shards(tier):
     if tier == "quick":
         return ([{"shape": s} for s in _shapes(3) if _pairs(s) <= 2] + [{"shape": s, "pre": "A"} for s in _shapes(2)])
     return ([{"shape": s} for s in _shapes(3)] + [{"shape": s, "pre": p} for s in _shapes(2) for p in ("A", "AC")] +
-            [{"shape": s} for s in _shapes(4) if _pairs(s) <= 1] +
+            [{"shape": s} for s in _shapes(4) if _pairs(s) == 0] +
             [{"shape": s, "one_time": True} for s in _shapes(4)])
 
 
@@ -127,7 +127,8 @@ OBLIGATIONS = [Obligation(
     symbolic="tick time of every reported tag value (real in [0,1e10], no ordering constraint), reported int values, data-log interval (positive real)",
     bounds={"quick": "every stream of 3 TagsUpdatedMsg for the active run (each 1-2 tags out of two plotted tags A,B and one unplotted tag C, or a re-delivery "
                      "of the previous message), and every stream of 2 preceded by a report before the run started",
-            "thorough": "every stream of 4 messages, and every stream of 3 preceded by a pre-run report of A or of A and C"},
+            "thorough": "every stream of 3 messages (per-tag tick times); every stream of 2 preceded by a pre-run report of A or of A and C; every stream of 4 "
+                        "single-tag messages / re-deliveries; every stream of 4 messages of 1-2 tags in which the tags of one message share one tick time"},
     assumptions=ASSUMPTIONS_DB + [
         "floats modelled as reals (CrossHair RealBasedSymbolicFloat); counterexamples are replayed with binary64",
         "reported values are ints, pairwise distinct per report (disjoint ranges) so that a stored value identifies the report it came from; "
@@ -137,3 +138,11 @@ OBLIGATIONS = [Obligation(
         "the engine sends its UodInfoMsg (readings A,B; data-log interval) before the run starts; plain tags only (not Mark / Method Status / Run Id)",
     ],
 )]
+
+
+MANIFEST = {
+    "level": "model_checking",
+    "text": "Bounded exhaustive symbolic execution (CrossHair/z3) of the real handle_TagsUpdatedMsg -> FromEngine.tag_values_changed/_persist_tag_values, TagsInfo.upsert and PlotLogRepository.store_tag_values/store_new_tag_info/create_plot_log over an in-memory session: for every stream shape within the bound the tick time of every reported value is an unconstrained solver real (out of order, equal, late first appearance), values are symbolic ints and the data-log interval any positive real; the stored PlotLogEntryValue rows are checked per tag for strictly increasing timestamps, spacing of at least one interval, provenance (reported for that tag at or before the stored time) and non-regression.",
+    "note": "Trusted: CrossHair's real-for-float model (stated assumption; counterexamples replayed with binary64), z3, the oracle in props/C29.py. SQLAlchemy session / SQLite replaced by an in-memory row store, ORM rows by plain records, models.datetime stubbed (debug formatting of a warning), publishers no-ops. Where the statement is ambiguous (per tag vs. per batch, > vs. >= interval) the weakest reading is checked. Longer streams, more than 2 tags per message, Mark/Method Status tags and float values are outside the claim.",
+    "technique": "symbolic execution of the real code (CrossHair + z3) with real-valued tick times, bounded exhaustive over stream shapes, counterexample replay",
+}
